@@ -126,6 +126,9 @@ class Run(RunBase):
                 not (ids & set(self.present))
         if k == "remove":
             return op["id"] in self.present
+        if k == "scenario_remove_list":
+            return len(op["ids"]) > 0 and len(set(op["ids"])) == len(op["ids"]) and \
+                all(i in self.present and i in self.sc_known for i in op["ids"])
         if k == "cut_out":
             return op["lanelet"] in self.present
         if k in ("q_pos", "q_shape"):
@@ -494,6 +497,35 @@ class Run(RunBase):
         self.present.pop(op["id"])
         return "ok"
 
+    def _op_scenario_remove_list(self, op):
+        """Scenario.remove_lanelet([.., a lanelet the scenario does not know, ..]): the call fails half-way.  Whatever
+        it removed is gone from the lookups too; what it did not reach is still found."""
+        ids = op["ids"]
+        objs = [self.net.find_lanelet_by_id(i) for i in ids]
+        if any(o is None for o in objs):
+            raise HarnessError("model says lanelet present, network cannot find it")
+        for la in objs:
+            c = la.center_vertices
+            self.ghosts = (getattr(self, "ghosts", []) + [tuple((c[0] + c[1]) / 2)])[-8:]
+        intruder = build.build_lanelet({"id": 9000 + op.get("n", 0), "left": [[900, 1], [910, 1]],
+                                        "center": [[900, 0], [910, 0]], "right": [[900, -1], [910, -1]]})
+        objs.insert(op["pos"] % (len(objs) + 1), intruder)
+        self.faults["F-midbatch"] += 1
+        self.route = "Scenario.remove_lanelet([.., foreign, ..])"
+        self.probe("route:" + self.route)
+        try:
+            self.sc.remove_lanelet(objs)
+            raised = None
+        except Exception as e:  # noqa
+            raised = type(e).__name__
+        gone = [i for i in ids if self.net.find_lanelet_by_id(i) is None]
+        for i in gone:
+            self.present.pop(i)
+            self.sc_known.discard(i)
+        if raised and gone:
+            self.probe("list-removal-interrupted")
+        return {"raised": raised, "gone": gone}
+
     def _op_scenario_add_list(self, op):
         """Scenario.add_objects([lanelets..., <an element that must be refused>]): the batch fails half-way; the
         lanelets taken over before the failure are in the network and have to be found by the lookups."""
@@ -617,6 +649,13 @@ class Run(RunBase):
                 copy.deepcopy(self.net).translate_rotate(np.array([5.0, 5.0]), 0.7)
             elif how == "derive":
                 LaneletNetwork.create_from_lanelet_list(self.net.lanelets)
+            elif how == "edit-returned-lists":
+                # ordinary caller code: the lists the getters hand out are the caller's
+                for lst in (self.net.lanelets, self.net.lanelet_polygons, self.sc.obstacles):
+                    if isinstance(lst, list):
+                        if lst:
+                            lst.pop(0)
+                        lst.reverse()
             elif how == "derive-and-move":
                 # networks derived from this one's lanelets are networks of their own: working on them (moving them,
                 # removing from them) is no business of this one
@@ -754,7 +793,12 @@ def _builder(rng, run, cfg):
             op = {"op": "add_clash", "keys": chosen, "via": rng.choice(["network", "single"])}
             yield op if run.enabled(op) else None
         elif r == "remove" and run.present:
-            yield {"op": r, "id": rng.pick(sorted(run.present))}
+            known = sorted(i for i in run.present if i in run.sc_known)
+            if known and rng.chance(0.35):
+                yield {"op": "scenario_remove_list", "ids": rng.sample(known, rng.randint(1, min(3, len(known)))),
+                       "pos": rng.randrange(4)}
+            else:
+                yield {"op": r, "id": rng.pick(sorted(run.present))}
         elif r == "cut_out" and run.present:
             yield {"op": r, "lanelet": rng.pick(sorted(run.present)),
                    "shape": gen.gen_shape(rng, ("rect", "poly", "circ"), scale=rng.choice([1.0, 4.0, 10.0])),
@@ -808,7 +852,7 @@ def _querier(rng, run, cfg):
 def _bystander(rng, run, cfg):
     n_draw = 0
     while True:
-        how = rng.pick(["draw", "compare", "copy-and-drop", "derive", "derive-and-move"])
+        how = rng.pick(["draw", "compare", "copy-and-drop", "derive", "derive-and-move", "edit-returned-lists"])
         if how == "draw":
             n_draw += 1
             if n_draw > 1:
@@ -842,7 +886,8 @@ class C06(Property):
                        "candidate-list-with-repeated-obstacle-id", "fork-keeps-original",
                        "continued-on-the-other-copy", "lattice-point-exactly-on-a-lanelet-border",
                        "lattice-shape-exactly-tangent-to-a-lanelet", "bystander-draw", "bystander-derive",
-                       "second-network-with-other-lanelet-ids", "route:Scenario.add_objects([.., refused])", "bounding-box-decoy-group"]
+                       "second-network-with-other-lanelet-ids", "route:Scenario.add_objects([.., refused])", "bounding-box-decoy-group", "list-removal-interrupted",
+                       "bystander-edit-returned-lists"]
     assumptions = [
         "geometric truth comes from crkit.geom (raw vertices / parameters, shapely predicates on geometry built there) "
         "with a don't-care band: clearance or penetration below 1e-7, and for circles distances in [0.99 r, r] "
